@@ -433,6 +433,10 @@ def gen_entry(rng, h, kind):
                 [1, 3, ns_big])}
             if nc:
                 a['covariates'] = _vals(rng, nc, 0.0, 0.5)
+                if rng.random() < 0.5:
+                    # one covariate row per sampled individual
+                    a['covariates'] = [_vals(rng, nc, 0.0, 0.5)
+                                       for _ in range(a['n_samples'])]
             r['args'].append(a)
         return r
     mech, n_out = gen_mech_recipe(rng, allow_nonlinear=False)
